@@ -124,6 +124,7 @@ type State struct {
 	gasCharged [][2]string
 	hookCalls  []HookCall
 	hookFailed bool
+	lghost     map[string]LGhost // loop ghost sequences of the loops entered on this path (spec name -> symbol)
 	hookCount  string // SMT Int: number of bridge-hook notifications sent (symbolic across loops)
 	nextCalled int
 	depositCalls int
@@ -148,7 +149,7 @@ type HookCall struct {
 
 func (s *State) Clone() *State {
 	n := &State{pc: append([]string(nil), s.pc...), cells: make(map[int]Value, len(s.cells)), cellTy: s.cellTy,
-		stores: make(map[int]*Store, len(s.stores)), trace: append([]string(nil), s.trace...), recovering: s.recovering, panicVal: s.panicVal, walks: s.walks, gasCharged: append([][2]string(nil), s.gasCharged...), hookCalls: append([]HookCall(nil), s.hookCalls...), hookFailed: s.hookFailed, hookCount: s.hookCount, nextCalled: s.nextCalled, depositCalls: s.depositCalls, depositErrs: append([]string(nil), s.depositErrs...), calls: append([]CallRec(nil), s.calls...)}
+		stores: make(map[int]*Store, len(s.stores)), trace: append([]string(nil), s.trace...), recovering: s.recovering, panicVal: s.panicVal, walks: s.walks, gasCharged: append([][2]string(nil), s.gasCharged...), hookCalls: append([]HookCall(nil), s.hookCalls...), hookFailed: s.hookFailed, hookCount: s.hookCount, lghost: cloneLGhost(s.lghost), nextCalled: s.nextCalled, depositCalls: s.depositCalls, depositErrs: append([]string(nil), s.depositErrs...), calls: append([]CallRec(nil), s.calls...)}
 	for k, v := range s.cells {
 		n.cells[k] = v
 	}
@@ -194,4 +195,20 @@ func describe(v Value) string {
 		return "<nil>"
 	}
 	return fmt.Sprintf("%T", v)
+}
+
+// LGhost is a history sequence of a loop: Sym(j) is the value of the ghost expression at the end of iteration j.
+type LGhost struct {
+	Sym, Sort string
+}
+
+func cloneLGhost(m map[string]LGhost) map[string]LGhost {
+	if m == nil {
+		return nil
+	}
+	n := make(map[string]LGhost, len(m))
+	for k, v := range m {
+		n[k] = v
+	}
+	return n
 }
